@@ -152,6 +152,13 @@ class VExt(V):
         return "VExt(%s)" % s.name
 
 
+class VType(V):
+    """type(obj) of a heap object: the dynamic class tag"""
+
+    def __init__(s, tag):
+        s.tag = tag
+
+
 class VBound(V):
     """Bound method: receiver + method name."""
 
